@@ -19,3 +19,12 @@ check('C01',
       'attribute/namespace nodes is not judged because the XDM definition and libxml2 disagree; absolute paths whose first axis contains '
       'the dummy document itself are not judged for Element roots',
       'DESIGN.md section 3 C01')
+check('C02',
+      'bounded-exhaustive enumeration of trees x builder configurations against the generator description; all node pairs for order operators',
+      'Every labelled tree up to 3 (quick) / 5 (thorough) elements x 5 decoration profiles, all 81 None/empty/value text-tail combinations, '
+      'attribute counts, lxml documents with comment/PI siblings x {xml.etree, lxml} x {Element, ElementTree} x fragment {None,True,False} '
+      'x namespaces argument x three builder entry points x two lazy-node forcing orders is built with the real builders and compared '
+      'node by node (kind, name, string value, parent, strictly increasing unique positions, parent/children links, elements map) with the '
+      "generator's description; then is/<</>> on all ordered node pairs and union/intersect/except/root/innermost/outermost on all operand pairs.",
+      'expected sequence from mc/models/xdm.py; order among the namespace nodes of one element is free',
+      'DESIGN.md section 3 C02')
